@@ -63,6 +63,19 @@ Theorem handler_error_is_result : forall ifuel max cur k ans out e offered,
 Proof. exact stitched_result. Qed.
 Print Assumptions handler_error_is_result.
 
+(** Whole-operation retries (ToByteSlice, ReadAt, CloneCopy via tryRepeatedly):
+    the result is that of the first buffer on which the whole (validated, C09)
+    operation succeeds, so no partial data of a failed attempt is ever returned;
+    the error of every failed attempt is offered to the handler exactly once,
+    in order; an error answer of the handler is the result; Done follows last. *)
+Theorem retried_operation : forall H cfg fuel n m b h cbs d e cbs' h',
+  try_repeatedly H cfg fuel n m b h cbs = (d, e, cbs', h') ->
+  (length (h_answers h) < n)%nat ->
+  exists offered, retried H cfg fuel m b (h_answers h) d e offered /\
+                  h_log h' = h_log h ++ map HOnError offered ++ [HDone].
+Proof. exact try_repeatedly_spec. Qed.
+Print Assumptions retried_operation.
+
 (** Done is reported exactly once on every path: every buffer kind handed to
     WithErrorHandler, every handler script, every method (including Discard,
     invalid offsets and handler failures), every digest. *)
